@@ -48,6 +48,12 @@ def run(rep):
                               {"input_hex": hx, "tokens": tk, "steps": steps, "E": E, "B": B, "blocking_functions": fns}, input_hex=hx)
         if res["rc"] != 0:
             broken.append({"obligation": "harness:psearch", "detail": res["err"]})
+        # memory "bounded likewise" and work linear on long flat chains of every list-like construct
+        ch_hits, ch_sum = searchcommon.run_chains(rep, 600 if rep.tier == "quick" else 3000, 2400 if rep.tier == "quick" else 12000)
+        rep.coverage["chains"] = ch_sum
+        for (stt, hx, detail, tk, val) in ch_hits[:5]:
+            found = True
+            rep.violation("input", "Parse work/memory is not linear in the number of tokens: %s: %s" % (stt, detail), {"input_hex": hx, "tokens": tk, "detail": detail}, input_hex=hx)
         # lexer premise (Properties/C02_lexer.v): the lexer reaches EOF on every input, with at most one token per byte
         if lexcommon.lexer_premise(rep, broken, ("runaway",)):
             found = True
